@@ -31,6 +31,8 @@ type Index struct {
 	// LowerKW: in native style the statement is written with lower-case keywords (create index ... on ... where ...),
 	// the way many people type it; SQLite keeps the text as typed in sqlite_master.
 	LowerKW bool `json:"lower_kw,omitempty"`
+	// Note: in native style a comment sits between the index parts and the WHERE keyword (kept by SQLite in the stored text)
+	Note bool `json:"note,omitempty"`
 }
 
 type FK struct {
@@ -299,6 +301,9 @@ func (ix Index) DDL(style Style, table string) string {
 	}
 	s := kw + q(style, ix.Name) + on + q(style, table) + " (" + strings.Join(parts, ", ") + ")"
 	if ix.Where != "" {
+		if ix.Note && style == StyleNative {
+			where = " -- only some rows\n" + strings.TrimLeft(where, " ")
+		}
 		s += where + ix.Where
 	}
 	return s
